@@ -286,6 +286,45 @@ def entries():
         add("%s = same type" % W, "same-type-assignment", W.split("<")[0].replace("xtl::", ""), hdr,
             "decltype(%s = %s)" % (wrap_obj(W, "lv"), wrap_obj(W, "lv")), [W + "&"])
 
+    # ---- H: implicit conversions of a wrapper to its payload (conversion operators / derived-to-base) -------------------
+    # the same rule as for the accessors, read off the only thing the type system shows of an implicit conversion: what it can
+    # initialise.  Every wrapper converts to `T const&` and (copyable T) to `T`; it converts to `T&` iff the rule gives a mutable
+    # lvalue: never for a const closure (const is preserved), never for an RVALUE wrapper that owns its value (the rule gives a
+    # decayed VALUE there, and a non-const lvalue reference cannot bind to a value), never for a const wrapper that owns its value.
+    # Where the rule leaves a choice (lvalue wrapper owning a value: a value or a reference into the wrapper; const wrapper over a
+    # T& closure: shallow or deep const) there is no row.
+    def conv_row(W, wlabel, hdr, func, clabel, obj, olabel, T, target, expect):
+        From = {"lv": W + "&", "clv": W + " const&", "xv": W}[obj]
+        To = {"T&": ty(T, ref="&"), "const T&": ty(T, True, ref="&"), "T": T}[target]
+        add("is_convertible<%s %s, %s>" % (wlabel, olabel, To), func, "closure %s on %s to %s" % (clabel, olabel, target), hdr,
+            "std::integral_constant<bool, std::is_convertible<%s, %s>::value>" % (From, To),
+            ["std::integral_constant<bool, %s>" % ("true" if expect else "false")], True)
+
+    for T in ("int", "c07::Counted", "int*"):
+        for clabel, cc, cref in CLOSURES:
+            C = ty(T, cc, ref=cref)
+            for obj, olabel in (("lv", "W&"), ("clv", "const W&"), ("xv", "W&&")):
+                for target in ("T&", "const T&", "T"):
+                    if target != "T&":
+                        expect = True
+                    elif clabel == "T&":
+                        expect = None if obj == "clv" else True
+                    elif clabel == "const T&" or clabel == "const T":
+                        expect = False
+                    else:   # the wrapper owns a mutable value
+                        expect = None if obj == "lv" else False
+                    if expect is None:
+                        continue
+                    conv_row("xtl::xclosure_wrapper<%s>" % C, "xclosure_wrapper<%s>" % C, "closure", "xclosure_wrapper::conversion", clabel, obj, olabel, T, target, expect)
+    for T in ("int", "c07::Counted"):
+        # an owning xmasked_value converts to a decayed value; xproxy_wrapper_impl<T> IS-A T: an rvalue of it is an rvalue T
+        for obj, olabel in (("lv", "W&"), ("xv", "W&&")):
+            conv_row("xtl::xmasked_value<%s, bool>" % T, "xmasked_value<%s,bool>" % T, "masked", "xmasked_value::conversion", "T", obj, olabel, T, "T", True)
+        conv_row("xtl::xmasked_value<%s, bool>" % T, "xmasked_value<%s,bool>" % T, "masked", "xmasked_value::conversion", "T", "xv", "W&&", T, "T&", False)
+    conv_row("xtl::xproxy_wrapper_impl<c07::Counted>", "xproxy_wrapper_impl<Counted>", "proxy", "xproxy_wrapper_impl::conversion", "T", "lv", "W&", "c07::Counted", "T&", True)
+    conv_row("xtl::xproxy_wrapper_impl<c07::Counted>", "xproxy_wrapper_impl<Counted>", "proxy", "xproxy_wrapper_impl::conversion", "T", "xv", "W&&", "c07::Counted", "T&", False)
+    conv_row("xtl::xproxy_wrapper_impl<c07::Counted>", "xproxy_wrapper_impl<Counted>", "proxy", "xproxy_wrapper_impl::conversion", "T", "xv", "W&&", "c07::Counted", "const T&", True)
+
     ids = set()
     for e in out:
         assert e.id not in ids, e.id
